@@ -10,6 +10,7 @@ Directives (each on its own line, leading whitespace ignored):
   //@  invariant ... / decreases ...          the `//@  ` lines (prefix stripped) are inserted between the loop
   //@END                                      header and its `{`
   //@SUB "<from>" -> "<to>"                   literal rewrite inside the body (must match; listed in evidence)
+  //@RESUB "<regex>" -> "<to>"                regular-expression rewrite (must match at least once)
   //@SUBOPT "<from>" -> "<to>"                same, but skipped when <from> does not occur (used for `X::CONST` -> `X::CONST()`)
   //@START ... //@END                          insert the `//@  ` lines right after the opening brace of the body
   //@AT "<text>" before|after                 insert the following `//@  ` lines before/after the first body line
@@ -73,6 +74,13 @@ def splice(tmpl_path, repo_root):
     cache = {}
 
     def repo_text(rel):
+        if rel not in cache and rel.startswith('EXPAND:'):
+            # text that only exists after macro expansion: run the repository's real proc-macro on the corpus
+            import expand
+            try:
+                cache[rel] = expand.expand(os.path.dirname(os.path.dirname(os.path.abspath(tmpl_path))), repo_root)
+            except Exception as e:
+                raise LostAnchor('macro expansion failed: %s' % str(e)[-600:])
         if rel not in cache:
             p = os.path.join(repo_root, rel)
             if not os.path.exists(p):
@@ -136,6 +144,10 @@ def splice(tmpl_path, repo_root):
                         i += 1
                     i += 1
                     loops[n] = buf
+                elif t.startswith('//@RESUB '):
+                    mm = re.match(r'//@RESUB\s+"(.*)"\s*->\s*"(.*)"\s*$', t)
+                    subs.append((re.compile(mm.group(1)), mm.group(2), False))
+                    i += 1
                 elif t.startswith('//@SUB ') or t.startswith('//@SUBOPT '):
                     mm = re.match(r'//@SUB(?:OPT)?\s+"(.*)"\s*->\s*"(.*)"\s*$', t)
                     subs.append((mm.group(1), mm.group(2), t.startswith('//@SUBOPT ')))
@@ -175,6 +187,12 @@ def splice(tmpl_path, repo_root):
                     clause = '\n' + '\n'.join('/*@c*/ ' + c for c in loops[n]) + '\n'
                     body = body[:bpos] + clause + body[bpos:]
             for frm, to, optional in subs:
+                if hasattr(frm, 'pattern'):
+                    body, nsub = frm.subn(to, body)
+                    if nsub == 0:
+                        raise LostAnchor('rewrite pattern `%s` not found in %s' % (frm.pattern, a['fn']))
+                    out.rewrites.append('%s:%s /%s/ -> `%s` (%d places)' % (a['file'], a['fn'], frm.pattern, to, nsub))
+                    continue
                 if frm not in body and optional:
                     continue  # a constant-to-function rewrite (R2) with nothing to rewrite
                 if frm not in body:
